@@ -222,7 +222,7 @@ func evalC10(r *runner, u *c10Unit, c C10Case) string {
 			}
 			got := u.lx.Scan(lexeme, 1)
 			if got[0].Type != u.tm.Type(name) {
-				return hd + fmt.Sprintf("the lexer scans %q as token type %d (%s); the token package numbers %q as %d", lexeme, got[0].Type, u.tm.Id(got[0].Type), name, u.tm.Type(name))
+				return hd + fmt.Sprintf("the lexer scans %q as token type %d (%s); the token package numbers %q as %d", lexeme, got[0].Type, tokName(u.lx, got[0]), name, u.tm.Type(name))
 			}
 			r.col.Class("lexer_type_checked")
 		}
